@@ -25,6 +25,7 @@ import (
 	"sync/atomic"
 
 	"github.com/google/martian/v3/log"
+	"github.com/google/martian/v3/verifhook"
 	"golang.org/x/net/http2"
 	"golang.org/x/net/http2/hpack"
 )
@@ -166,6 +167,7 @@ func (r *relay) relayFrames(closing chan bool) error {
 		for {
 			select {
 			case f := <-r.output:
+				verifhook.Point("h2.relay.writer.beforeSend")
 				if err == nil {
 					r.destMu.Lock()
 					err = f.send(r.dest)
@@ -201,6 +203,7 @@ func (r *relay) relayFrames(closing chan bool) error {
 				}
 				return fmt.Errorf("reading frame: %w", err)
 			}
+			verifhook.Point("h2.relay.reader.beforeProcess")
 			if err := r.processFrame(frame); err != nil {
 				return fmt.Errorf("processing frame: %w", err)
 			}
